@@ -4,7 +4,7 @@ import ast, re
 
 from ..core import Rule, AnalysisError, node_src
 from ..engine import pyflow, tables
-from ..engine.pyindex import walk_no_nested, is_self_attr
+from ..engine.pyindex import walk_no_nested
 from ..rules import gen, iface, typed
 from ..rules import pC14 as P
 
@@ -13,13 +13,13 @@ TECHNIQUE = ('typestate over clang\'s AST of the C iteration helpers per preproc
              'complete-domain evaluation of small decision tables (_find_for_from_node_relations over its 4 inputs, the result dispatch of the emitted '
              'helper call over the helper\'s finite set of return constants); symbolic comparison of two expression trees (compile-time formula vs. '
              'constructed node tree); path-sensitive dataflow over generate_execution_code (label protocol) and over IterationTransform (guard dominance); '
-             'interface rules I3/I5/I6 restricted to the iteration helpers')
+             'interface rules I3/I5 restricted to the iteration helpers')
 DECIDES = ('(S2) in the helpers loaded by DictIterationNextNode/SetIterationNextNode every path to PyDict_Next/_PySet_NextEntry on a container passes a comparison of the '
            'remembered length with the current size whose "changed" branch raises the exception type CPython raises (RuntimeError) and returns a negative code, in every '
            'preprocessor configuration of the function; '
            '(RET) the code emitted after `r = __Pyx_dict_iter_next/__Pyx_set_iter_next(...)` sends every negative return constant of the helper to the error label, '
            '0 to `break`, and positive constants into the body (decided by evaluating the emitted tests, in order, over the helper\'s return constants); '
-           '(I3/I5/I6) arity, categories and name-aligned argument order of the typed and emitted calls to the iteration helpers; '
+           '(I3/I5) arity and categories of the typed (IterationTransform) and emitted (*IterationNextNode) calls to the iteration helpers; '
            '(G3/LOOP) every loop statement node installs its own break/continue labels before generating the body, places the continue label after the body while they are installed, '
            'restores the labels before generating the else clause, and places the break label after the else clause on every path; '
            '(REL) the relation pair chosen for (negative step, reversed) runs in the direction sign(step) xor reversed, includes the first bound and excludes the last for forward ranges and the '
@@ -31,7 +31,8 @@ DECIDES = ('(S2) in the helpers loaded by DictIterationNextNode/SetIterationNext
            'and a method that accepts `reversed` reads it.')
 NOT_DECIDED = ('iteration counts and final loop-variable values in general (the formula itself is only compared with its sibling, not with range semantics); the C types chosen for the synthesised arithmetic '
                '(overflow of spanning types); that nothing between the size test and the table walk can run Python code; exception *messages* ("set changed size" vs CPython\'s "Set changed size"); '
-               'str/bytes/C-array iteration bounds arithmetic; the enumerate() evaluation-order finding (21) belongs to C20.')
+               'str/bytes/C-array iteration bounds arithmetic; the enumerate() evaluation-order finding (21) belongs to C20; I6 (name-aligned order) is not armed: the emitted arguments carry no names '
+               'that coincide with the C parameter names, so the mutual-swap rule would be vacuous here.')
 ASSUMPTIONS = ['PyDict_Next and _PySet_NextEntry are the only raw table walkers (C-API reference); a comparison `param <op> f(container)` with an integer by-value parameter is the size test',
                'reversed ranges swap bound1/bound2 (checked: the swap statement must exist, otherwise ANALYSIS-ERROR)',
                'nodes built by Parsing.py carry user-written operators and legitimately follow the user\'s directives; every other literal-operator construction is synthesised']
@@ -46,8 +47,12 @@ MUTATIONS = [
     ('Cython/Utility/Optimize.c', '__Pyx_set_iter_next: `return -1;` -> `return 0;` in the size-changed branch', 'C14-S2'),
     ('Cython/Compiler/Nodes.py', 'DictIterationNextNode: error_goto_if("%s == -1") -> ("%s == 1")', 'C14-RET'),
     ('Cython/Compiler/Nodes.py', 'SetIterationNextNode: "if (unlikely(%s == 0)) break;" -> "(%s <= 0)"', 'C14-RET'),
-    ('Cython/Compiler/Nodes.py', 'DictIterationNextNode: drop temp_addresses[2] from the emitted __Pyx_dict_iter_next call', 'C14-I5'),
-    ('Cython/Compiler/Optimize.py', 'PySet_Iterator_func_type: drop the p_is_set argument', 'C14-I3'),
+    ('Cython/Compiler/Nodes.py', 'SetIterationNextNode: emitted "__Pyx_set_iter_next(%s, %s, &%s, %s)" (one argument less)', 'C14-I5'),
+    ('Cython/Compiler/Nodes.py', 'DictIterationNextNode: drop temp_addresses[2] from the % tuple only', 'ANALYSIS-ERROR (exit 2: the template no longer resolves, C14-I5 below floor) - not silent, not a VIOLATION'),
+    ('Cython/Compiler/Optimize.py', '_transform_set_iteration: args=[set_obj, is_set, set_len_temp_addr] (is_set_temp_addr dropped)', 'C14-I3'),
+    ('Cython/Compiler/Optimize.py', 'PySet_Iterator_func_type: drop the declared p_is_set argument', 'MISSED by design: I3 compares passed arity with the C arity, a shorter declaration is information only (DESIGN section 7)'),
+    ('Cython/Compiler/Optimize.py', '_transform_range_iteration: _find_for_from_node_relations(step_value < 0, False)', 'C14-REL'),
+    ('Cython/Compiler/Optimize.py', "_try_optimise_iterator_function: delete `if reversed: return node` before _transform_enumerate_iteration", 'C14-REV'),
     ('Cython/Compiler/Nodes.py', 'WhileStatNode: move `code.set_loop_labels(old_loop_labels)` after the else clause', 'C14-LOOP'),
     ('Cython/Compiler/Nodes.py', 'ForFromStatNode: `code.put_label(break_label)` moved before the else clause', 'C14-LOOP'),
     ('Cython/Compiler/Nodes.py', '_ForInStatNode: delete `code.put_label(code.continue_label)`', 'C14-LOOP'),
@@ -66,6 +71,10 @@ MUTATIONS = [
     ('Cython/Compiler/Optimize.py', '_build_range_step_calculation: MulNode operands swapped (abs_step * q -> q * abs_step), local step_calculation_node renamed', 'silent'),
     ('Cython/Utility/Optimize.c', 'size test rewritten as `if (likely(orig_length == PyDict_Size(iter_obj))) {} else { raise; return -1; }`', 'silent'),
     ('Cython/Compiler/Optimize.py', "_find_for_from_node_relations rewritten with `if not reversed:` first", 'silent'),
+    ('Cython/Compiler/Optimize.py', "guards rewritten: `if not reversed: return self._transform_set_iteration(...)`; `if name == 'enumerate' and reversed: return node` followed by `if name == 'enumerate': return self._transform_enumerate_iteration(...)`", 'silent'),
+    ('Cython/Compiler/Nodes.py', 'DictIterationNextNode: error test first as code.error_goto_if_neg(res, pos), then "if (!%s) break;"; temp renamed', 'silent'),
+    ('Cython/Utility/Optimize.c', '__Pyx_set_iter_next: parameters iter_obj/orig_length renamed', 'silent'),
+    ('Cython/Compiler/Optimize.py', 'compile-time formula split with a local `q = (begin_value - end_value - 1) // abs_step`', 'silent'),
 ]
 
 
@@ -121,7 +130,7 @@ def rule_RET(ctx, next_classes, helper_funcs):
 # ------------------------------------------------------------------------------------------------------------ iface
 def rule_I3_iter(ctx, transform):
     full = typed.rule_I3(ctx, modules=(transform.module.short,), floor=0)
-    r = Rule('C14-I3', 'typed helper calls built by IterationTransform: passed arity == C arity, declared argument/return categories agree with the C prototype', floor=3)
+    r = Rule('C14-I3', 'typed helper calls built by IterationTransform: passed arity == C arity, declared argument/return categories agree with the C prototype', floor=6)
     prefix = '%s.%s.' % (transform.module.short, transform.name)
     for key in sorted(k for k in full.nontrivial if isinstance(k, str) and k.startswith(prefix)):
         r.inst(key, sample=key)
@@ -434,7 +443,7 @@ def rule_PIN(ctx):
 
 # ------------------------------------------------------------------------------------------------------------ REV
 def rule_REV(ctx, transform):
-    r = Rule('C14-REV', 'IterationTransform: forward-only rewriting methods are reached only where `reversed` is false; the others receive the caller\'s `reversed`; accepted `reversed` parameters are read', floor=14)
+    r = Rule('C14-REV', 'IterationTransform: forward-only rewriting methods are reached only where `reversed` is false; the others receive the caller\'s `reversed`; accepted `reversed` parameters are read', floor=19)
     for mname, callee, kind, line, ok, text in P.reversed_discipline(ctx.index, transform):
         key = 'Optimize.%s.%s:%s' % (transform.name, mname, callee or 'reads-reversed')
         r.inst(key, sample='%s -> %s (%s)' % (mname, callee, kind))
